@@ -471,6 +471,10 @@ def check_property(prop, tier='quick', seed=0, meta=None, only_unit=None, only_t
             if o.status == 'SUCCESS':
                 if isb: n_bdis += 1; bounded.append(o)
                 else: n_dis += 1
+            elif o.status == 'FAILURE' and (o.desc or '').strip() == 'undefined function should be unreachable':
+                # dfcc's marker for a reachable call of a function that has neither a body in the unit nor a contract in the spec (e.g. the changed
+                # code uses a library operation the spec says nothing about): nothing is known about that call, so nothing is decided - not a violation
+                undecided.append('%s/%s: the code calls %s, which has no body in the unit and no contract in the spec (%s)' % (uname, tid, o.name.split('.')[0], o.name))
             elif o.status == 'FAILURE':
                 kf = match_known(known, uname, tid, o)
                 if kf is not None: known_hits.append((kf, o))
